@@ -15,6 +15,7 @@
 package redis
 
 import (
+	"math"
 	"strconv"
 )
 
@@ -36,6 +37,9 @@ func (server *Server) registerSugarExecutors() {
 			currVal = retVal
 		}
 		newVal := currVal + val
+		if (0 < val && newVal < currVal) || (val < 0 && currVal < newVal) {
+			return nil, ErrOverflow
+		}
 		opt := newDefaultSetOption()
 		_, err = server.userCommandHandler.Set(conn, key, strconv.Itoa(newVal), opt)
 		if err != nil {
@@ -83,6 +87,9 @@ func (server *Server) registerSugarExecutors() {
 		inc, err := nextIntegerArgument(cmd, "decrement", args)
 		if err != nil {
 			return nil, err
+		}
+		if inc == math.MinInt {
+			return nil, ErrOverflow
 		}
 		return incdecExecutor(conn, cmd, key, -inc)
 	})
